@@ -1,12 +1,13 @@
 SPECIFICATION WSpec
 CONSTANTS
-  DocIds = {1, 2, 3, 4, 5, 6, 7, 8, 9, 10}
-  Loadable = {"A", "B"}
+  DocIds = {1, 2, 3, 4, 5, 6, 7, 8, 9, 10, 11, 12}
+  Loadable = {"A", "B", "X"}
   Vals = {0, 1, 2}
   MaxOps = 25
   MaxK = 3
-  Feats = {"val", "ns", "cache", "use"}
+  Feats = {"val", "ns", "cache", "use", "schema"}
   AsCoded = FALSE
+  Extra = TRUE
   Forget = {}
 INVARIANT EmitW
 INVARIANT OutcomeIsFunctionOfInputs
